@@ -55,9 +55,12 @@ CLAIMS = {
              "open at the end of the text; without it the statement is false: forward_needs_clean_end), forward_partial_end is the "
              "hypothesis-free form (errors = the end-of-text error, if any). Accessor clause: accessors_reach_all / every_node_accessible (for every fragment program every node of the parse tree "
              "is reached through the typed accessors of the REGENERATED asts! table, accessor results in source order) - proved. "
-             "Converse: reporting discipline + type_converse_partial + statement_skeleton_converse (include/defvar/dump/assert/class "
-             "skeleton relative to the documented grammar extended by what a clean run of `value` consumes); outside that decided "
-             "case by case by the recogniser (testing, labelled). 10 deviations of the parser from the documented grammar are known "
+             "Converse: reporting discipline + type_converse_partial + statement_form_converse (all twelve statement forms, nested "
+             "statements by induction) + value_converse (every value form) + source_file_converse_shape: an input parsed with zero "
+             "errors whose token kinds avoid the listed adjacent-token patterns (Shape, VShape: exactly the deviations where the "
+             "parser accepts more than the documentation) is a sentence of the documented grammar (Doc.Sentence) - no residual "
+             "hypothesis; VShape over-excludes empty `{ }` bodies and `x[1,]` (use source_file_converse_partial + value_converse "
+             "there). Outside the shapes decided case by case by the recogniser (testing, labelled). 10 deviations of the parser from the documented grammar are known "
              "findings (DESIGN.md §12.5).",
         tech="Lean 4 proof (abstract interpreter over token kinds + simulation theorem, per-rule contracts by mutual structural recursion) "
              "over a grammar table regenerated from the documentation + differential correspondence + Earley oracle",
@@ -74,7 +77,9 @@ CLAIMS = {
              "character boundary of every file, inlay hints for all sub-ranges - over stress patterns (self/mutual references, "
              "redefinitions, shadowing), generated programs, their prefixes and token mutations, non-ASCII/CRLF injection, "
              "include chains/diamonds/includes inside blocks, bounded deep nesting and the corpus must not panic, crash or hang.",
-        note="Stack overflow, salsa and rowan internals are not modelled (nesting depth is measured up to 1000, not proved); record "
+        note="Unconditional forms: buildWorkspace_total (building a workspace from ANY file map, root path and include dir succeeds: the "
+             "parser never panics or runs out of fuel - C02 - and the fuel of the collection loop suffices), index_never_panics_all, "
+             "analysis_total_all. Stack overflow, salsa and rowan internals are not modelled (nesting depth is measured up to 1000, not proved); record "
              "ids carried inside Ty.record values are not tracked by the invariant (they are [id]! lookups, not panic values, in "
              "the model). Include cycles are allowed (the property excludes them; the repaired code handles them).",
         tech="Lean 4 proof (invariant preserved by every one of ~100 indexer functions, Hoare-style over StateT/Except) + "
@@ -97,8 +102,14 @@ CLAIMS = {
              "the root scope), statement_restores_scopes (every statement leaves the scope stack as it found it - exactly so for "
              "the block constructs, extended only in the innermost scope by defvar/defset/include), name_after_block_not_resolved "
              "(no variable introduced inside a block statement is ever resolved by a later statement; under ScopeIdsOK of the "
-             "start state). Still the oracle, not a theorem: the link from 'the indexer visits this use with these scopes' to the "
-             "generator's expectation. "
+             "start state). End to end (section 5): use_goes_to_declaration (+ type / parent class / class value / multiclass sites): "
+             "if the identifier site resolved a name to symbol S during indexing, then in the FINAL analysis go-to-definition at "
+             "every offset of that identifier answers S's declaration and find-references at it lists the use (via "
+             "logged_reference_answers: a logged reference is never overwritten - C06 NoReuse - and the log only grows: "
+             "mkRec_later); references_exact / declaration_references_exact_partial (find-references answers exactly the logged "
+             "references; hkept fails exactly for body `let` overrides = the two listed findings). Residual: hlive (S is a live "
+             "symbol of the mid-run state) and hlater (established for every root statement by root_statement_midrun). Still the "
+             "oracle, not a theorem: that the generator's expected declaration is the one findLocal picks. "
              "Known findings: body `let` overrides create a second field symbol (2 signatures).",
         tech="Lean 4 proof (algebraic laws of the scope stack + Hoare triples per block construct) + differential correspondence + generator oracle",
         ref="DESIGN.md §7 C05, §12.7"),
@@ -120,7 +131,8 @@ CLAIMS = {
              "arity, type annotation and operand-list contracts (17 inline two-operand comparisons listed as not covered). "
              "Attribution: diagnostics_attributed / other_files_unchanged / index_diagnostics_files (every diagnostic belongs to the "
              "file being indexed; indexing an include leaves other files' diagnostics unchanged). Soundness: "
-             "core_no_diagnostics_partial for a small lookup-free core (class/def with typed literal fields); beyond it the oracle. "
+             "core_no_diagnostics_partial for a small core (class/def without parameters and parents, typed fields initialised by literals "
+             "or by earlier fields of the same body; a decidable judgement, a 7-statement example); beyond it the oracle. "
              "letItem_unchecked proves the known finding (top-level `let f = v in` checks neither field name nor type).",
         tech="Lean 4 proof (decision logic stated outright: iff-characterisations) + differential correspondence + fault-seeding oracle audited by llvm-tblgen",
         ref="DESIGN.md §7 C13, §12.7"),
@@ -270,10 +282,13 @@ CLAIMS = {
              "machine over the lexer token stream. unterminated_reported: every unterminated arrangement (enabled or skipped, any "
              "depth) parses with 'reached EOF without matching #endif' at (len,len) as its last error; wellnested_no_eof_error; "
              "end_message_is_eof_message (the error the parser appends at the end is never a stale lexer message, for every "
-             "input); skipped_lexical_errors_dropped; directive_error_drops_lexer_message (repaired in 59e1067). Tied to preprocessor.rs by exhaustive correspondence over all directive sequences <= 4 (quick) / <= 6 "
+             "input); skipped_lexical_errors_dropped; directive_error_drops_lexer_message (repaired in 59e1067). From TEXT (no lexing "
+             "hypothesis): prep_selects_text, unterminated_reported_text, wellnested_no_eof_error_text for every rendered arrangement "
+             "(directives on lines of their own, arbitrary well-formed LexSpec tokens, blanks, comments and an invalid string as "
+             "payload; Lemmas/PrepRender.lean proves the lexer model splits the rendering into exactly that arrangement). Tied to preprocessor.rs by exhaustive correspondence over all directive sequences <= 4 (quick) / <= 6 "
              "(thorough) over two macro names and a marker, plus random nestings checked through the IDE layer.",
-        note="Model: Prep.lean/PrepSpec.lean vs preprocessor.rs. The hypothesis that directive text lexes into directive tokens is "
-             "discharged by correspondence, not by a theorem (C14).",
+        note="Model: Prep.lean/PrepSpec.lean vs preprocessor.rs. The hypothesis-carrying theorems (absToks text = items.flatten) remain for "
+             "arbitrary texts; for rendered arrangements the hypothesis is a theorem (Render.SItems.absToks_render).",
         tech="Lean 4 proof (mutual structural induction over item trees + refinement to the concrete model) + exhaustive-small correspondence",
         ref="DESIGN.md §7 C15"),
     "C16": dict(
@@ -284,7 +299,11 @@ CLAIMS = {
              "file_system.rs/index.rs by exhaustive correspondence over every edge set on <= 3 (quick) / <= 4 (thorough) files "
              "with missing targets and an INCLUDE_DIR variant, plus random larger graphs, through a real AnalysisHost.",
         note="Model: Include.lean; include path resolution is abstracted in the model (checked by the generator's reference "
-             "resolution against the implementation).",
+             "resolution against the implementation). C16Ide.lean proves the clauses on the big indexer model too: fileSet_exact "
+             "(the collected file set has no duplicates and is exactly the files reachable through resolved includes), "
+             "indexed_files(_all) (indexed files: no duplicates, the root, a subset of the file set, closed under resolved top-level "
+             "includes of every indexed file), unresolved_diagnosed_ide, collected_not_indexed (a collected file inside a block the "
+             "indexer skips is not indexed: both inclusions can be strict).",
         tech="Lean 4 proof (BFS/DFS invariants over all finite graphs) + exhaustive-small differential correspondence",
         ref="DESIGN.md §7 C16"),
     "C20": dict(
